@@ -53,6 +53,31 @@
 (* A migrator that obeys RangeWithinSTH cannot see the difference; one that *)
 (* takes end_index (or a batch boundary) for the end of the tree can: the   *)
 (* instance with Hi <- HiUnclamped must violate Bounded (MCMigrillian).     *)
+(*                                                                         *)
+(* Signer lag.  A pre-ordered Trillian log only queues what AddSequenced    *)
+(* brings; its signed root (destSize) advances when the signer integrates   *)
+(* the queue - action Integrate, arbitrarily later than the submission:     *)
+(* within the pass, rounds later, or not before the run is over.  The       *)
+(* migrator must not take the root for its own position: "in continuous    *)
+(* mode it carries on with newly published entries without gaps or repeats" *)
+(* (C16) - round k+1 goes on from where round k ended (FirstIndex = the     *)
+(* larger of root and pos), whatever the root says.  Invariant NoRepeat:    *)
+(* within one run of the controller (ghost subm: the indices submitted with *)
+(* an OK answer since Run last started: since pos was last reset) no index  *)
+(* is submitted a second time; together with PosCovered: every index is     *)
+(* submitted exactly once across the rounds of a run.  Named clause         *)
+(* RunStartsFromRoot for what the property leaves open: a NEW run (after a  *)
+(* failed pass, lost mastership, restart of the process) knows only the     *)
+(* destination's root and may submit again what the signer has not          *)
+(* integrated yet (the destination answers such leaves ALREADY_EXISTS); a   *)
+(* batch answered ResourceExhausted was not submitted and comes again.      *)
+(* cfg.lag names the signer's schedule for simulation and for the harness:  *)
+(* the signer sleeps until the migrator has asked for the root more than    *)
+(* cfg.lag times (SignerAwake); the exhaustive instances leave Integrate    *)
+(* free, which covers every schedule.  The instance with                    *)
+(* FirstIndex <- FirstIndexFromRoot (a migrator that believes the root)     *)
+(* must violate NoRepeat: lag x growth between rounds is what tells them    *)
+(* apart (MigrillianRewind.cfg).                                            *)
 (***************************************************************************)
 EXTENDS Naturals, Integers, Sequences, FiniteSets, TLC
 
@@ -69,7 +94,7 @@ Min(a, b) == IF a <= b THEN a ELSE b
 
 VARIABLES
   cfg,        \* the scenario (constant along a behaviour): src0, growth, ahead, bad, destLen, destInt, batch, fetchers,
-              \*   submitters, cont, start, end, forked, forkAt, mode ("run" | "master"), faults, restarts
+              \*   submitters, cont, start, end, forked, forkAt, mode ("run" | "master"), faults, restarts, lag
   srcSize,    \* current size of the source log
   dest,       \* [Idx -> leaf or None]
   destSize,   \* integrated prefix of the destination
@@ -89,12 +114,13 @@ VARIABLES
   faults,     \* remaining fault budget
   restarts,   \* remaining process restarts
   verified,   \* largest STH size that passed the gate (ghost, for Bounded)
+  subm,       \* ghost, for NoRepeat: indices submitted with an OK answer in this run of the controller (since pos was reset)
   flags,      \* ghost: names of broken rules ("conflict", "quotaAbort", "ungated", ...)
   pass, calls,\* ghost: pass number and number of calls to the fakes in this pass (keys of the fault schedule)
   hist        \* ghost: what the environment did (for replay)
 
 vars == <<cfg, srcSize, dest, destSize, pc, why, result, pos, root, sth, proved, gen, out, bag, hold,
-          master, alive, faults, restarts, verified, flags, pass, calls, hist>>
+          master, alive, faults, restarts, verified, subm, flags, pass, calls, hist>>
 ctl == <<pc, why, result, pos, root, sth, proved, gen>>
 pipe == <<out, bag, hold>>
 envv == <<srcSize, destSize, master, alive>>
@@ -123,6 +149,8 @@ Store(leaves) ==
   /\ flags' = flags \cup (IF \E i \in DOMAIN leaves \cap Idx : dest[i] # None /\ dest[i] # leaves[i] THEN {"conflict"} ELSE {})
                     \cup (IF root > 0 /\ ~proved THEN {"ungated"} ELSE {})
                     \cup (IF DOMAIN leaves \subseteq Idx THEN {} ELSE {"outOfRange"})
+                    \cup (IF DOMAIN leaves \cap subm # {} THEN {"repeat"} ELSE {})
+  /\ subm' = subm \cup DOMAIN leaves
 BatchLeaves(s, n) == [i \in s..(s + n - 1) |-> SrcLeaf(i)]
 
 (* ---------- controller ---------- *)
@@ -141,7 +169,7 @@ GetRoot ==
         /\ pc' = "unwind" /\ why' = "err" /\ root' = 0 /\ sth' = -1 /\ proved' = FALSE
         /\ Log([ev |-> "GetRoot", pass |-> pass + 1, size |-> 0, code |-> "ERR"])
         /\ UNCHANGED <<result, pos, gen>>
-  /\ UNCHANGED <<cfg, dest, pipe, envv, restarts, verified>>
+  /\ UNCHANGED <<cfg, dest, pipe, envv, restarts, verified, subm>>
 
 PrepareSTH ==
   /\ pc = "prepare" /\ Call
@@ -151,10 +179,14 @@ PrepareSTH ==
         /\ UNCHANGED <<why, result, pos, root, proved, gen, faults, flags>>
      \/ /\ Has("sthErr") /\ faults' = faults - 1 /\ Fail("err") /\ Terminal
         /\ Log([ev |-> "STH", pass |-> pass, size |-> 0, code |-> "ERR"])
-  /\ UNCHANGED <<cfg, dest, pipe, envv, restarts, verified, pass>>
+  /\ UNCHANGED <<cfg, dest, pipe, envv, restarts, verified, subm, pass>>
 
 FirstIndex == IF cfg.cont THEN Max(root, pos)                        \* ContIgnoresRange
               ELSE IF cfg.start < 0 THEN root ELSE Max(cfg.start, pos)
+\* what a migrator would do that takes the destination's root for its position (refuted: violates NoRepeat once the
+\* signer lags a round behind and the source has grown; used as `FirstIndex <- FirstIndexFromRoot` by MigrillianRewind.cfg)
+FirstIndexFromRoot == IF cfg.cont THEN root
+                      ELSE IF cfg.start < 0 THEN root ELSE Max(cfg.start, pos)
 \* the end of the range of this pass: the STH, or an explicit end_index inside it - never beyond it (RangeWithinSTH)
 Hi == IF cfg.cont \/ cfg.end = 0 THEN sth ELSE Min(cfg.end, sth)
 \* what a migrator would do that believes an explicit end_index (refuted: violates Bounded once the source serves more
@@ -183,7 +215,7 @@ Verify ==
                \/ /\ Has("consErr") /\ faults' = faults - 1
                   /\ Fail("err") /\ UNCHANGED verified /\ Terminal
                   /\ Log([ev |-> "Cons", pass |-> pass, code |-> "ERR", valid |-> FALSE])
-  /\ UNCHANGED <<cfg, dest, pipe, envv, restarts, pass>>
+  /\ UNCHANGED <<cfg, dest, pipe, envv, restarts, pass, subm>>
 
 (* ---------- fetcher: range generator and workers ---------- *)
 AssignRange ==
@@ -191,7 +223,7 @@ AssignRange ==
   /\ LET e == Min(gen + cfg.batch, Hi) - 1 IN
        /\ out' = out \cup {[s |-> gen, e |-> e]}
        /\ gen' = e + 1
-  /\ UNCHANGED <<cfg, dest, bag, hold, envv, faults, restarts, verified, flags, pass, calls, hist,
+  /\ UNCHANGED <<cfg, dest, bag, hold, envv, faults, restarts, verified, subm, flags, pass, calls, hist,
                  pc, why, result, pos, root, sth, proved>>
 
 Fetch(r) ==
@@ -214,14 +246,14 @@ Fetch(r) ==
         /\ Log([ev |-> "Fetch", pass |-> pass, start |-> r.s, end |-> r.e, n |-> 0, code |-> "ERR"])
      \/ /\ avail <= 0 /\ UNCHANGED <<out, bag, faults>>       \* no such entry (400): not a fault of the source; the worker
         /\ Log([ev |-> "Fetch", pass |-> pass, start |-> r.s, end |-> r.e, n |-> 0, code |-> "ERR"])   \* asks again
-  /\ UNCHANGED <<cfg, dest, hold, envv, restarts, verified, flags, pass, ctl>>
+  /\ UNCHANGED <<cfg, dest, hold, envv, restarts, verified, subm, flags, pass, ctl>>
 
 (* ---------- submitters ---------- *)
 Take(b) ==
   /\ pc = "run" /\ b \in bag /\ Cardinality(hold) < cfg.submitters
   /\ bag' = bag \ {b}
   /\ hold' = hold \cup {[s |-> b.s, n |-> b.n, u |-> b.u, st |-> "try"]}
-  /\ UNCHANGED <<cfg, dest, out, envv, faults, restarts, verified, flags, pass, calls, hist, ctl>>
+  /\ UNCHANGED <<cfg, dest, out, envv, faults, restarts, verified, subm, flags, pass, calls, hist, ctl>>
 
 \* leaves: what the request carries (BatchLeaves(h.s, h.n) for the migrator this specification describes;
 \* trace validation passes what the real request carried); o: the backend's answer.
@@ -239,26 +271,26 @@ SubmitL(h, leaves, o) ==
              /\ Has("quota") /\ faults' = faults - 1          \* ResourceExhausted: back off, then the same batch again
              /\ hold' = (hold \ {h}) \cup {[h EXCEPT !.st = "wait"]}
              /\ Log([ev |-> "Add", pass |-> pass, start |-> h.s, n |-> h.n, code |-> "ResourceExhausted"])
-             /\ UNCHANGED <<dest, flags, ctl>>
+             /\ UNCHANGED <<dest, flags, ctl, subm>>
        [] o = "refused" ->                                    \* EmptyRequestRefused: no leaves, InvalidArgument; not a
              /\ DOMAIN leaves = {}                             \* fault of the environment, but fatal for the pass
              /\ hold' = hold \ {h}
              /\ why' = "err" /\ Terminal
              /\ Log([ev |-> "Add", pass |-> pass, start |-> h.s, n |-> 0, code |-> "InvalidArgument"])
-             /\ UNCHANGED <<dest, faults, pc, result, pos, root, sth, proved, gen>>
+             /\ UNCHANGED <<dest, faults, pc, result, pos, root, sth, proved, gen, subm>>
        [] OTHER ->
              /\ Has("fatal") /\ faults' = faults - 1          \* any other code: the pass fails
              /\ hold' = hold \ {h}
              /\ why' = "err" /\ Terminal
              /\ Log([ev |-> "Add", pass |-> pass, start |-> h.s, n |-> h.n, code |-> "Internal"])
-             /\ UNCHANGED <<dest, pc, result, pos, root, sth, proved, gen>>
+             /\ UNCHANGED <<dest, pc, result, pos, root, sth, proved, gen, subm>>
   /\ UNCHANGED <<cfg, out, bag, envv, restarts, verified, pass>>
 
 \* the failed submitter cancels the pass
 DoFail ==
   /\ pc = "run" /\ why = "err"
   /\ pc' = "unwind"
-  /\ UNCHANGED <<cfg, dest, pipe, envv, faults, restarts, verified, flags, pass, calls, hist, why, result, pos, root, sth, proved, gen>>
+  /\ UNCHANGED <<cfg, dest, pipe, envv, faults, restarts, verified, subm, flags, pass, calls, hist, why, result, pos, root, sth, proved, gen>>
 
 Submit(h) == IF h.n = 0 THEN SubmitL(h, BatchLeaves(h.s, 0), "refused")
              ELSE \E o \in {"ok", "quota", "fatal"} : SubmitL(h, BatchLeaves(h.s, h.n), o)
@@ -266,12 +298,12 @@ Submit(h) == IF h.n = 0 THEN SubmitL(h, BatchLeaves(h.s, 0), "refused")
 Wake(h) ==
   /\ pc = "run" /\ h \in hold /\ h.st = "wait"
   /\ hold' = (hold \ {h}) \cup {[h EXCEPT !.st = "try"]}
-  /\ UNCHANGED <<cfg, dest, out, bag, envv, faults, restarts, verified, flags, pass, calls, hist, ctl>>
+  /\ UNCHANGED <<cfg, dest, out, bag, envv, faults, restarts, verified, subm, flags, pass, calls, hist, ctl>>
 
 PassDone ==
   /\ pc = "run" /\ why = "" /\ gen >= Hi /\ out = {} /\ bag = {} /\ hold = {}
   /\ pc' = "passDone" /\ pos' = sth
-  /\ UNCHANGED <<cfg, dest, pipe, envv, faults, restarts, verified, flags, pass, calls, hist, why, result, root, sth, proved, gen>>
+  /\ UNCHANGED <<cfg, dest, pipe, envv, faults, restarts, verified, subm, flags, pass, calls, hist, why, result, root, sth, proved, gen>>
 
 Return(r) == /\ pc' = "returned" /\ result' = r /\ why' = ""
              /\ Log([ev |-> "Return", pass |-> pass, result |-> r])
@@ -281,7 +313,7 @@ NextPass ==
   /\ \/ /\ cfg.cont /\ pc' = "start" /\ UNCHANGED <<why, result, hist>>
      \/ /\ ~cfg.cont /\ Return("nil")
      \/ /\ cfg.cont /\ cfg.stop /\ Return("nil")              \* StopAfter elapsed
-  /\ UNCHANGED <<cfg, dest, pipe, envv, faults, restarts, verified, flags, pass, calls, pos, root, sth, proved, gen>>
+  /\ UNCHANGED <<cfg, dest, pipe, envv, faults, restarts, verified, subm, flags, pass, calls, pos, root, sth, proved, gen>>
 
 (* ---------- unwinding a failed / cancelled pass ---------- *)
 StragglerSubmitL(h, leaves) ==
@@ -296,7 +328,7 @@ StragglerRefused(h) ==
   /\ pc = "unwind" /\ h \in hold /\ h.st = "try" /\ h.n = 0 /\ Call
   /\ hold' = hold \ {h}
   /\ Log([ev |-> "Add", pass |-> pass, start |-> h.s, n |-> 0, code |-> "InvalidArgument"])
-  /\ UNCHANGED <<cfg, dest, out, bag, envv, faults, restarts, verified, flags, pass, ctl>>
+  /\ UNCHANGED <<cfg, dest, out, bag, envv, faults, restarts, verified, subm, flags, pass, ctl>>
 
 StragglerSubmit(h) == IF h.n = 0 THEN StragglerRefused(h) ELSE StragglerSubmitL(h, BatchLeaves(h.s, h.n))
 
@@ -304,60 +336,65 @@ StragglerFetch(r) ==
   /\ pc = "unwind" /\ r \in out /\ Call
   /\ out' = out \ {r}
   /\ Log([ev |-> "Fetch", pass |-> pass, start |-> r.s, end |-> r.e, n |-> r.e - r.s + 1, code |-> "OK"])
-  /\ UNCHANGED <<cfg, dest, bag, hold, envv, faults, restarts, verified, flags, pass, ctl>>
+  /\ UNCHANGED <<cfg, dest, bag, hold, envv, faults, restarts, verified, subm, flags, pass, ctl>>
 
 \* f: the ghost flags afterwards (trace validation settles its suspicions here)
 EndUnwindF(f) ==
   /\ pc = "unwind" /\ flags' = f
   /\ out' = {} /\ bag' = {} /\ hold' = {}
-  /\ CASE why = "cancel" -> (Return("canceled") /\ UNCHANGED pos)
-       [] why = "revoke" -> (pc' = "await" /\ why' = "" /\ UNCHANGED <<result, pos, hist>>)
+  /\ CASE why = "cancel" -> (Return("canceled") /\ UNCHANGED <<pos, subm>>)
+       [] why = "revoke" -> (pc' = "await" /\ why' = "" /\ UNCHANGED <<result, pos, hist, subm>>)
        [] OTHER -> IF cfg.mode = "master" /\ cfg.cont
-                     THEN pc' = "start" /\ why' = "" /\ pos' = 0 /\ UNCHANGED <<result, hist>>   \* runWithRestarts
-                     ELSE Return("error") /\ UNCHANGED pos
+                     THEN pc' = "start" /\ why' = "" /\ pos' = 0 /\ subm' = {} /\ UNCHANGED <<result, hist>>   \* runWithRestarts: a new run
+                     ELSE Return("error") /\ UNCHANGED <<pos, subm>>
   /\ UNCHANGED <<cfg, dest, envv, faults, restarts, verified, pass, calls, root, sth, proved, gen>>
 EndUnwind == EndUnwindF(flags)
 
 AwaitDone ==
   /\ pc = "await" /\ master /\ alive
-  /\ pc' = "start" /\ pos' = 0
+  /\ pc' = "start" /\ pos' = 0 /\ subm' = {}              \* a new run
   /\ UNCHANGED <<cfg, dest, pipe, envv, faults, restarts, verified, flags, pass, calls, hist, why, result, root, sth, proved, gen>>
 
 (* ---------- environment ---------- *)
+\* the signer's schedule named by cfg.lag: asleep until the migrator has asked for the root more than cfg.lag times (or
+\* has returned).  Integrate itself is not bound by it - the exhaustive instances cover every schedule -; the simulation
+\* instances (pass is counted there) and the harness's signer are.
+SignerAwake == pass > cfg.lag \/ pc = "returned"
+
 Integrate ==
   /\ destSize < Contig
   /\ destSize' = destSize + 1
-  /\ UNCHANGED <<cfg, srcSize, dest, pipe, master, alive, faults, restarts, verified, flags, pass, calls, hist, ctl>>
+  /\ UNCHANGED <<cfg, srcSize, dest, pipe, master, alive, faults, restarts, verified, subm, flags, pass, calls, hist, ctl>>
 
 Grow ==
   /\ srcSize < cfg.src0 + cfg.growth /\ pc # "returned"
   /\ srcSize' = srcSize + 1
   /\ Log([ev |-> "Grow", pass |-> pass, calls |-> calls, size |-> srcSize + 1])
-  /\ UNCHANGED <<cfg, dest, destSize, pipe, master, alive, faults, restarts, verified, flags, pass, calls, ctl>>
+  /\ UNCHANGED <<cfg, dest, destSize, pipe, master, alive, faults, restarts, verified, subm, flags, pass, calls, ctl>>
 
 Cancel ==
   /\ Has("cancel") /\ alive /\ pc # "returned"
   /\ faults' = faults - 1 /\ alive' = FALSE
   /\ pc' = "unwind" /\ why' = "cancel"
   /\ Log([ev |-> "Cancel", pass |-> pass, calls |-> calls]) /\ Terminal
-  /\ UNCHANGED <<cfg, srcSize, dest, destSize, pipe, master, restarts, verified, pass, calls, result, pos, root, sth, proved, gen>>
+  /\ UNCHANGED <<cfg, srcSize, dest, destSize, pipe, master, restarts, verified, subm, pass, calls, result, pos, root, sth, proved, gen>>
 
 Revoke ==
   /\ Has("revoke") /\ cfg.mode = "master" /\ master /\ alive /\ pc \notin {"returned", "await"}
   /\ faults' = faults - 1 /\ master' = FALSE
   /\ pc' = "unwind" /\ why' = "revoke"
   /\ Log([ev |-> "Revoke", pass |-> pass, calls |-> calls])
-  /\ UNCHANGED <<cfg, srcSize, dest, destSize, pipe, alive, restarts, verified, flags, pass, calls, result, pos, root, sth, proved, gen>>
+  /\ UNCHANGED <<cfg, srcSize, dest, destSize, pipe, alive, restarts, verified, subm, flags, pass, calls, result, pos, root, sth, proved, gen>>
 
 Regain ==
   /\ ~master /\ master' = TRUE
-  /\ UNCHANGED <<cfg, srcSize, dest, destSize, pipe, alive, faults, restarts, verified, flags, pass, calls, hist, ctl>>
+  /\ UNCHANGED <<cfg, srcSize, dest, destSize, pipe, alive, faults, restarts, verified, subm, flags, pass, calls, hist, ctl>>
 
 \* the process is started again on the same destination (operator / supervisor)
 Restart ==
   /\ pc = "returned" /\ result # "nil" /\ restarts > 0
   /\ restarts' = restarts - 1 /\ alive' = TRUE
-  /\ pc' = "start" /\ pos' = 0 /\ result' = "" /\ why' = ""
+  /\ pc' = "start" /\ pos' = 0 /\ subm' = {} /\ result' = "" /\ why' = ""
   /\ flags' = flags \ {"terminal"}
   /\ Log([ev |-> "Restart", pass |-> pass])
   /\ UNCHANGED <<cfg, srcSize, dest, destSize, pipe, master, faults, verified, pass, calls, root, sth, proved, gen>>
@@ -372,7 +409,7 @@ InitWith(c) ==
   /\ out = {} /\ bag = {} /\ hold = {}
   /\ master = TRUE /\ alive = TRUE
   /\ faults = c.faults /\ restarts = c.restarts
-  /\ verified = c.destLen
+  /\ verified = c.destLen /\ subm = {}
   /\ flags = {}
   /\ pass = 0 /\ calls = 0 /\ hist = <<>>
 
@@ -408,8 +445,12 @@ VerbatimBad == (result = "nil" /\ ~cfg.cont) => \A i \in cfg.bad : (i < sth /\ I
 PosCovered == \A i \in 0..(pos - 1) : InRange(i) => dest[i] # None
 \* the integrated prefix never runs ahead of what is stored
 PrefixOK == destSize <= Contig
+\* no repeats (C16: "carries on with newly published entries without gaps or repeats", "exactly once"): within one run of
+\* the controller no index is submitted a second time, however far the destination's root lags behind the submissions
+\* (RunStartsFromRoot: a new run may).  With PosCovered: exactly once.
+NoRepeat == "repeat" \notin flags
 
-Safety == Mirror /\ Bounded /\ Gate /\ NoConflict /\ QuotaRetried /\ Complete /\ PosCovered /\ VerbatimBad /\ PrefixOK
+Safety == Mirror /\ Bounded /\ Gate /\ NoConflict /\ QuotaRetried /\ Complete /\ PosCovered /\ VerbatimBad /\ PrefixOK /\ NoRepeat
 
 (* ---------- liveness ---------- *)
 Fair == WF_vars(Controller) /\ WF_vars(Workers) /\ WF_vars(Submitters) /\ WF_vars(Integrate) /\ WF_vars(Regain)
